@@ -727,6 +727,10 @@ func loadSources(load *ssa.UnOp, f func(ssa.Value)) {
 // is evident inside one function family: an Alloc, a parameter, a call result,
 // or — through loads of single-assignment local variables — the value stored.
 func baseObject(fam *Family, v ssa.Value) ssa.Value {
+	return baseObjectS(fam, v, map[ssa.Value]bool{})
+}
+
+func baseObjectS(fam *Family, v ssa.Value, seen map[ssa.Value]bool) ssa.Value {
 	for i := 0; i < 10; i++ {
 		v = fam.canon(v)
 		switch x := v.(type) {
@@ -750,10 +754,17 @@ func baseObject(fam *Family, v ssa.Value) ssa.Value {
 			continue
 		case *ssa.Phi:
 			// all edges the same object?
+			if seen[v] {
+				return v
+			}
+			seen[v] = true
 			var one ssa.Value
 			same := true
 			for _, e := range x.Edges {
-				b := baseObject(fam, e)
+				if e == v {
+					continue
+				}
+				b := baseObjectS(fam, e, seen)
 				if one == nil {
 					one = b
 				} else if one != b {
